@@ -4,199 +4,18 @@
    harness/src_functions.py), for all inputs.  The Screen(...) call of each function is the model's constructor applied
    to the keyword arguments the call site passes (py_screen, end of Model/Reveal.v); that the three call sites pass the
    parent's treatment_mapping and sample_mapping is therefore READ FROM THE SOURCE: the translations equal the model
-   variant [carry_mappings true] and no other (source_variant_unique). *)
+   variant [carry_mappings true] and no other (source_variant_unique).
+
+   The links are in the pieces Proofs/C12Source_Reveal.v (the three functions), C12Source_Variant.v (C03: which variant the source is),
+   C12Source_SetObserved.v (Screen.set_observed), over the auxiliary facts of C12Source_Base.v.  THIS file holds the part the
+   constructor link of C01 (Proofs/C01SourceInit.v) is stated with - the two statement runs of Screen.__init__ that decide
+   observations / observation_mask, [src_mask_rules] - so that C01 depends on the translations of those two runs only. *)
 From Coq Require Import ZArith List Bool Lia Arith.
 From Batchie Require Import Lib.Sexp Lib.PyRt Generated.Consts Generated.SrcArithC03 Model.Encode Model.Screen Model.Reveal
-  Model.Holdout Generated.SrcReveal Proofs.PyRtLemmas Proofs.C03Base Proofs.C03Screen Proofs.C12Reveal Proofs.C03Frozen Proofs.C03Witness.
+  Model.Holdout Generated.SrcReveal Proofs.PyRtLemmas Proofs.C03Base Proofs.C03Screen Proofs.C12Reveal Proofs.C03Frozen Proofs.C03Witness
+  Proofs.C12Source_Base.
 Import ListNotations.
 Open Scope Z_scope.
-
-(* ---------- lists ---------- *)
-Lemma combine_fst_snd {A B} (l : list (A * B)) : combine (map fst l) (map snd l) = l.
-Proof. induction l as [|[a b] l IH]; cbn [map combine fst snd]; [reflexivity | now rewrite IH]. Qed.
-
-Lemma select_map {A B} (f : A -> B) sel : forall l, select sel (map f l) = map f (select sel l).
-Proof.
-  induction sel as [|b sel IH]; intros [|a l]; cbn [select map]; try reflexivity.
-  destruct b; cbn [map]; now rewrite IH.
-Qed.
-
-Lemma forallb_id_map {A} (f : A -> bool) l : forallb (fun x => x) (map f l) = forallb f l.
-Proof. induction l as [|a l IH]; cbn [map forallb]; [reflexivity | now rewrite IH]. Qed.
-
-Lemma existsb_id_map {A} (f : A -> bool) l : existsb (fun x => x) (map f l) = existsb f l.
-Proof. induction l as [|a l IH]; cbn [map existsb]; [reflexivity | now rewrite IH]. Qed.
-
-Lemma res_bind_ok_r {A} (x : result A) : (dor r <- x; Ok r) = x.
-Proof. destruct x; reflexivity. Qed.
-
-(* ---------- Screen(...) on the columns of a screen ---------- *)
-(* the rows of a screen with the mask column replaced *)
-Definition remask (rows : list row) (mk : list bool) : list row :=
-  map (fun rb => with_mask (snd rb) (fst rb)) (combine rows mk).
-
-Lemma zip_rows_cols rows : forall mk,
-  zip_rows (map (fun r => map fst (r_treats r)) rows) (map (fun r => map snd (r_treats r)) rows)
-           (map r_sample rows) (map r_plate rows) (map r_obs rows) mk
-  = remask rows mk.
-Proof.
-  unfold remask. induction rows as [|r rows IH]; intros [|b mk]; cbn [map zip_rows combine fst snd]; try reflexivity.
-  rewrite IH, combine_fst_snd. reflexivity.
-Qed.
-
-Lemma remask_const b rows : remask rows (repeat b (length rows)) = map (with_mask b) rows.
-Proof.
-  unfold remask. induction rows as [|r rows IH]; cbn [length repeat combine map fst snd]; [reflexivity | now rewrite IH].
-Qed.
-
-Lemma remask_or rows : forall sel,
-  remask rows (np_or (map r_mask rows) sel)
-  = map (fun rb => with_mask (r_mask (fst rb) || snd rb) (fst rb)) (combine rows sel).
-Proof.
-  unfold remask, np_or. induction rows as [|r rows IH]; intros [|b sel]; cbn [map combine fst snd]; try reflexivity.
-  now rewrite IH.
-Qed.
-
-(* the call Screen(<the five data columns of s>, observation_mask = mk, control name, both mappings of s) *)
-Lemma py_screen_of_screen s mk :
-  py_screen (col_tnames s) (col_tdoses s) (col_samples s) (col_plates s) (Some (col_obs s)) (Some mk)
-            (Some (s_ctrl s)) (Some (attr_tmap s)) (Some (attr_smap s))
-  = rebuild true s (remask (s_rows s) mk).
-Proof.
-  unfold py_screen, rebuild, col_tnames, col_tdoses, col_samples, col_plates, col_obs, attr_tmap, attr_smap, tmap_arg, smap_arg.
-  cbn [fst snd]. now rewrite zip_rows_cols.
-Qed.
-
-(* ---------- the three functions ---------- *)
-Theorem src_reveal_plates_is_model : forall (s : screen) (ids : list Z),
-  src_reveal_plates s ids = reveal_plates (carry_mappings true) s ids.
-Proof.
-  intros s ids. unfold src_reveal_plates, reveal_plates, revealed_values, reveal_rows, reveal_sel.
-  cbn [carry_mappings carry_reveal]. fold (np_isin (s_pids s) ids).
-  unfold np_all, np_any, np_eq_zero, np_isnan, col_obs at 1 2. rewrite select_map, forallb_id_map, existsb_id_map.
-  destruct (forallb obs_is_zero _); [reflexivity|].
-  destruct (existsb obs_is_nan _); [reflexivity|].
-  rewrite res_bind_ok_r, py_screen_of_screen. unfold col_mask. now rewrite remask_or.
-Qed.
-
-Lemma np_full_size (b : bool) s : np_full b (screen_size s) = repeat b (length (s_rows s)).
-Proof. unfold np_full, screen_size. now rewrite Nat2Z.id. Qed.
-
-Theorem src_mask_screen_is_model : forall s : screen, src_mask_screen s = mask_screen (carry_mappings true) s.
-Proof.
-  intros s. unfold src_mask_screen, mask_screen. cbn [carry_mappings carry_mask].
-  now rewrite res_bind_ok_r, py_screen_of_screen, np_full_size, remask_const.
-Qed.
-
-Theorem src_unmask_screen_is_model : forall s : screen, src_unmask_screen s = unmask_screen (carry_mappings true) s.
-Proof.
-  intros s. unfold src_unmask_screen, unmask_screen. cbn [carry_mappings carry_unmask].
-  now rewrite res_bind_ok_r, py_screen_of_screen, np_full_size, remask_const.
-Qed.
-
-(* ---------- C03: which variant of the model the source is ---------- *)
-(* one operation / a history of the lifecycle as the TRANSLATED source functions perform it
-   (save+load is the constructor call of Screen.load_h5, C02's subject, as in the model) *)
-Definition src_step (s : screen) (o : op) : result screen :=
-  match o with
-  | Reveal ids => src_reveal_plates s ids
-  | Mask => src_mask_screen s
-  | Unmask => src_unmask_screen s
-  | SaveLoad => save_load s
-  end.
-Definition src_history (ops : list op) (s0 : screen) : result screen :=
-  fold_left (fun acc o => dor s <- acc; src_step s o) ops (Ok s0).
-
-Theorem src_step_is_model : forall s o, src_step s o = step (carry_mappings true) s o.
-Proof.
-  intros s [ids| | |]; cbn [src_step step];
-    [apply src_reveal_plates_is_model | apply src_mask_screen_is_model | apply src_unmask_screen_is_model | reflexivity].
-Qed.
-
-Theorem src_history_is_model : forall ops s0, src_history ops s0 = history (carry_mappings true) ops s0.
-Proof.
-  intros ops s0. unfold src_history, history. generalize (Ok s0 : result screen).
-  induction ops as [|o ops IH]; intros acc; cbn [fold_left]; [reflexivity|].
-  rewrite IH. f_equal. destruct acc as [s|t]; cbn [res_bind]; [apply src_step_is_model | reflexivity].
-Qed.
-
-(* the two variants of each operation differ on the training half of the C03 witness: the sample ids it gives *)
-Definition sids_of (r : result screen) : option (list Z) := match r with Ok s => Some (s_sids s) | Err _ => None end.
-
-(* the translation determines the variant: [carry_mappings true] is the ONLY variant whose model equals the translated
-   source on all inputs - and it is the variant the call-site constants of Generated/SrcArithC03.v name *)
-Theorem source_variant_unique : forall v,
-  (forall s o, src_step s o = step v s o) <->
-  v = {| carry_reveal := SRC_reveal_plates_carries_mappings; carry_mask := SRC_mask_screen_carries_mappings;
-         carry_unmask := SRC_unmask_screen_carries_mappings |}.
-Proof.
-  intros v. change (Build_variant _ _ _) with (carry_mappings true). split.
-  - intros H. destruct v as [a b c]. unfold carry_mappings.
-    assert (Ha : a = true).
-    { pose proof (H w_train (Reveal [0])) as E. rewrite src_step_is_model in E. apply (f_equal sids_of) in E.
-      destruct a; [reflexivity|]. vm_compute in E. discriminate. }
-    assert (Hb : b = true).
-    { pose proof (H w_train Mask) as E. rewrite src_step_is_model in E. apply (f_equal sids_of) in E.
-      destruct b; [reflexivity|]. vm_compute in E. discriminate. }
-    assert (Hc : c = true).
-    { pose proof (H w_train Unmask) as E. rewrite src_step_is_model in E. apply (f_equal sids_of) in E.
-      destruct c; [reflexivity|]. vm_compute in E. discriminate. }
-    now subst.
-  - intros -> s o. apply src_step_is_model.
-Qed.
-
-(* the lifecycle of the translated source: split (model of the hold-out code, its selection an oracle input), then the
-   translated reveal / mask / unmask functions.  Its derived screens keep the parent's mappings and ids. *)
-Definition src_lifecycle (p : screen) (sel : list bool) (test : bool) (ops : list op) : result screen :=
-  dor pr <- holdout_split p sel; src_history ops (half test pr).
-
-Theorem src_lifecycle_is_model : forall p sel test ops,
-  src_lifecycle p sel test ops = lifecycle (carry_mappings true) p sel test ops.
-Proof.
-  intros p sel test ops. unfold src_lifecycle, lifecycle.
-  destruct (holdout_split p sel) as [pr|t]; cbn [res_bind]; [apply src_history_is_model | reflexivity].
-Qed.
-
-Theorem ids_frozen_of_source : forall p sel test ops s,
-  src_lifecycle p sel test ops = Ok s -> frozen_to p s.
-Proof. intros p sel test ops s H. rewrite src_lifecycle_is_model in H. exact (ids_frozen p sel test ops s H). Qed.
-
-(* ---------- Screen.set_observed ---------- *)
-Lemma with_cols_self r : with_cols (r_obs r) (r_mask r) r = r.
-Proof. destruct r; reflexivity. Qed.
-
-Lemma count_true_cons b sel : count_true (b :: sel) = if b then S (count_true sel) else count_true sel.
-Proof. unfold count_true. cbn [filter]. destruct b; reflexivity. Qed.
-
-(* writing the values into the observation column and True into the mask column at the selected positions
-   = the model's row-wise [assign] *)
-Lemma put_cols_assign : forall sel vs rows,
-  length sel = length rows -> length vs = count_true sel ->
-  put_cols rows (mask_put sel vs (map r_obs rows)) (mask_put sel (repeat true (count_true sel)) (map r_mask rows))
-  = assign sel vs rows.
-Proof.
-  induction sel as [|b sel IH]; intros vs [|r rows] Hl Hv; cbn [length] in Hl; try discriminate; [reflexivity|].
-  rewrite count_true_cons in *. cbn [map mask_put assign]. destruct b.
-  - destruct vs as [|v vs]; cbn [length] in Hv; [discriminate|]. cbn [repeat put_cols]. rewrite IH by lia. reflexivity.
-  - cbn [put_cols]. rewrite IH by lia. now rewrite with_cols_self.
-Qed.
-
-(* the model's set_observed is the translated method run on the screen's two arrays, put back into the screen *)
-Theorem set_observed_is_src : forall (s : screen) (sel : list bool) (vals : list Z),
-  set_observed s sel vals
-  = dor p <- src_set_observed (col_obs s) (col_mask s) sel vals; Ok (set_cols s (fst p) (snd p)).
-Proof.
-  intros s sel vals. unfold set_observed, src_set_observed, np_mask_assign, np_mask_fill, col_obs, col_mask.
-  cbn [negb]. rewrite !map_length.
-  destruct (Nat.eqb (length sel) (length (s_rows s))) eqn:El; cbn [negb res_bind]; [|reflexivity].
-  apply Nat.eqb_eq in El. cbv zeta.
-  destruct (Nat.eqb (length vals) (count_true sel)) eqn:Ek.
-  - apply Nat.eqb_eq in Ek. cbn [res_bind fst snd].
-    unfold set_cols. now rewrite put_cols_assign.
-  - destruct vals as [|x [|y vals]]; cbn [res_bind]; try reflexivity.
-    cbn [fst snd].
-    unfold set_cols. now rewrite put_cols_assign by (try exact El; apply repeat_length).
-Qed.
 
 (* ---------- Screen.__init__: the two statement runs that decide observations / observation_mask ---------- *)
 Lemma map_const {A B} (b : B) (l : list A) : map (fun _ => b) l = repeat b (length l).
@@ -311,14 +130,4 @@ Proof.
   rewrite put_cols_norm, (mk_screen_unfold (norm_rows og mg rows)).
   rewrite (arity_ok_treats a rows (norm_rows og mg rows)) by apply norm_rows_treats.
   rewrite Ea. cbn [negb andb]. cbv zeta. rewrite norm_rows_tt, U. reflexivity.
-Qed.
-
-(* ---------- the arrays of one screen are aligned ---------- *)
-Lemma source_arrays_aligned s ids :
-  plates_encoded s ->
-  length (np_isin (s_pids s) ids) = length (s_rows s) /\ length (col_obs s) = length (s_rows s) /\
-  length (col_mask s) = length (s_rows s) /\ length (np_or (col_mask s) (np_isin (s_pids s) ids)) = length (s_rows s).
-Proof.
-  intros H. apply plates_encoded_length in H. unfold np_isin, col_obs, col_mask, np_or.
-  rewrite !map_length, combine_length, !map_length, H. repeat split; try reflexivity. apply Nat.min_id.
 Qed.
